@@ -6,6 +6,7 @@ from bibtexparser import middlewares as mw
 from bibtexparser.model import Entry, ExplicitComment, ImplicitComment, Preamble, String
 from bibtexparser.writer import BibtexFormat
 
+from .. import leak
 from ..canon import alias, canon, describe
 
 ID = "C07"
@@ -104,7 +105,7 @@ def bounds(tier):
 
 
 def shards(tier):
-    return [("stacks", li, mi) for li in range(NLIBS) for mi in range(len(POOL))] + [("write", li) for li in range(NLIBS)]
+    return [("stacks", li, mi) for li in range(NLIBS) for mi in range(len(POOL))] + [("write", li) for li in range(NLIBS)] + [("leak", mi) for mi in range(len(POOL))]
 
 
 def run_stack(li, idxs, acc, judged_prefixes):
@@ -187,6 +188,11 @@ def run_write(li, acc):
 def run_shard(shard, tier, acc):
     if shard[0] == "write":
         run_write(shard[1], acc)
+        return
+    if shard[0] == "leak":
+        # one long-lived instance over all libraries (forwards and backwards) must behave like fresh instances
+        label, fac = POOL[shard[1]]
+        leak.run(fac, [(lambda i=i: base_library(i)) for i in range(NLIBS)], acc, label)
         return
     _, li, mi = shard
     maxd = 2 if tier == "quick" else 3
